@@ -1,7 +1,12 @@
 #!/bin/bash
-# tools/try_patch.sh <patch.diff> <Cxx> [Cyy ...]  -- apply a seeded change to /repo, run the checks, undo it
+# tools/try_patch.sh <patch.diff> <Cxx> [Cyy ...]  -- apply a seeded change to /repo, run the checks once, undo it
 P=$(realpath "$1"); shift
 cd /repo && git apply "$P" || { echo "patch does not apply"; exit 9; }
 cd /verif
-for c in "$@"; do ./check $c 2>&1 | cut -c1-260 | grep -v "^VIOLATION" | tail -3;  ./check $c 2>/dev/null | grep -c "^VIOLATION" | sed "s/^/  $c VIOLATION lines: /"; ./check $c 2>/dev/null | grep "^VIOLATION" | head -3 | cut -c1-260; done
-cd /repo && git checkout -- . && git status --short | grep -v "??" 
+for c in "$@"; do
+  ./check $c > /tmp/try_$c.out 2>&1; echo "  $c exit=$? VIOLATION lines: $(grep -c '^VIOLATION' /tmp/try_$c.out)"
+  grep '^VIOLATION' /tmp/try_$c.out | sed 's/replay=[^ ]* //' | sed 's/\[[^]]*\]//' | cut -c1-200 | sort | uniq -c | head -6
+  grep -v '^VIOLATION' /tmp/try_$c.out | cut -c1-250 | tail -2
+done
+cd /repo && git checkout -- . && git status --short | grep -v "??"
+exit 0
